@@ -1,6 +1,6 @@
 (* Props/C01.v — a run's verdict is exactly what the generated error and decoding imply. *)
 From Coq Require Import Arith List Bool Lia ZArith QArith.
-From QV Require Import Core.Bits Core.Pauli Core.Symp Core.Code Core.CodeP App.RunOnce App.RunOnceP.
+From QV Require Import Core.Bits Core.Pauli Core.Symp Core.Code Core.CodeP App.RunOnce App.RunOnceP App.RunHistory.
 Import ListNotations.
 Open Scope nat_scope.
 
@@ -81,6 +81,35 @@ Theorem c01_reject : forall T p q,
   (1 <= T)%Z /\ in_unit p = true /\ (q = None \/ exists q', q = Some q' /\ in_unit q' = true).
 Proof. exact reject_once_ftp. Qed.
 
+(* histories of runs with a decoder that owns its answers (look-up table keyed by the syndrome, the stored answer
+   handed back whenever the syndrome repeats): every run returns what this run's errors and the decoder's policy for
+   this run's syndrome imply; no run depends on the runs before it *)
+Theorem c01_history_pointwise : forall c policy h t, sound policy t ->
+  run_history c policy t h = map (fun g => once c g (policy (syn_of c g))) h.
+Proof. exact history_pointwise. Qed.
+Theorem c01_history_independent : forall c policy h1 h2 g i, nth_error h1 i = Some g ->
+  forall j, nth_error h2 j = Some g ->
+  nth_error (run_history c policy [] h1) i = nth_error (run_history c policy [] h2) j.
+Proof. exact history_nth. Qed.
+(* step errors multiplied by operators commuting with the stabilizers hit the same table row ... *)
+Theorem c01_same_table_row : forall ss errs errs' ms, Forall2 (shifted ss) errs errs' ->
+  decoder_syndrome ss errs ms = decoder_syndrome ss errs' ms.
+Proof. exact same_table_row. Qed.
+(* ... but the verdict follows this run's error: the logical commutations move by those of the multiplier, and a
+   run that succeeded must fail once the error is multiplied by something anticommuting with a logical *)
+Theorem c01_lc_shift : forall c e l w w' r cv d d', length r = length e -> length e = length l ->
+  resolve c e w (DR None None (Some r) cv) = Some d ->
+  resolve c (xorv e l) w' (DR None None (Some r) cv) = Some d' ->
+  d_lc d = Some (map b2z (syndrome_of (logicals c) (xorv r e))) /\
+  d_lc d' = Some (map b2z (xorv (syndrome_of (logicals c) (xorv r e)) (syndrome_of (logicals c) l))).
+Proof. exact lc_shift. Qed.
+Theorem c01_verdict_differs : forall c e l w w' r lc cv d d', length r = length e -> length e = length l ->
+  ~ commutes_all (logicals c) l ->
+  resolve c e w (DR None lc (Some r) cv) = Some d ->
+  resolve c (xorv e l) w' (DR None lc (Some r) cv) = Some d' ->
+  d_success d = true -> d_success d' = false.
+Proof. exact verdict_differs. Qed.
+
 (* non-vacuity: two steps on the 5-qubit code with a flip, recovery not returning to the code space *)
 Definition five := mkCode (map to_bsf [[pX;pZ;pZ;pX;pI]; [pI;pX;pZ;pZ;pX]; [pX;pI;pX;pZ;pZ]; [pZ;pX;pI;pX;pZ]])
                           [to_bsf [pX;pX;pX;pX;pX]] [to_bsf [pZ;pZ;pZ;pZ;pZ]].
@@ -96,3 +125,5 @@ Proof. vm_compute. auto. Qed.
 Print Assumptions c01_syndrome_ideal. Print Assumptions c01_syndrome_ftp. Print Assumptions c01_ftp_parity. Print Assumptions c01_flip_locality. Print Assumptions c01_flip_untouched. Print Assumptions c01_flip_single_step.
 Print Assumptions c01_verdict. Print Assumptions c01_verdict_pauli. Print Assumptions c01_bare_recovery. Print Assumptions c01_passthrough.
 Print Assumptions c01_error_iff. Print Assumptions c01_weight. Print Assumptions c01_reject.
+Print Assumptions c01_history_pointwise. Print Assumptions c01_history_independent. Print Assumptions c01_same_table_row.
+Print Assumptions c01_lc_shift. Print Assumptions c01_verdict_differs.
